@@ -687,6 +687,7 @@ func startupRun(ctx *Ctx, in startupIn) startupObs {
 	env := startupNewEnv(dir, true, 1)
 	defer env.close()
 	startupSetGlobals(in.Par)
+	configuration.CurrentConfig.DbPath = env.dbPath // as in the daemon: the database the controllers use is the configured one
 	for _, f := range in.Fans {
 		env.addDevice(f)
 	}
@@ -740,6 +741,7 @@ func startupRun(ctx *Ctx, in startupIn) startupObs {
 			if in.Cobra && d.spec.Kind == "file" {
 				startupCobraReset(env, d)
 				startupSetGlobals(in.Par) // LoadConfig replaced configuration.CurrentConfig
+				configuration.CurrentConfig.DbPath = env.dbPath
 			} else {
 				// cmd/fan/reset.go: DeleteFanPwmData, DeleteFanPwmMap
 				p := persistence.NewPersistence(env.dbPath)
